@@ -123,6 +123,10 @@ def r_expr(e, twin):
         return f"[{r_expr(e[1], twin)} for cv_ in {r_expr(e[2], twin)}]"
     if k == "genexp":
         return f"(cv_ for cv_ in {r_expr(e[1], twin)})"
+    if k == "mlstr":
+        # a string literal spanning two source lines; the second line starts with blanks that are
+        # part of the *value* (they must survive whatever is done to the function's source text)
+        return 'len("""' + e[1] + '\n' + " " * e[2] + e[1] + '""")'
     if k == "lam2":
         # two sibling lambdas on one line that differ only in a constant (0.0 / -0.0) or only
         # one level deeper
@@ -495,7 +499,7 @@ def walk_exprs(stmts):
                         yield from ex(p)
 
 
-_EK = {"int", "var", "bin", "cmp", "E", "len", "walrus", "ifexp", "idx", "list", "tuple", "lam", "comp", "genexp", "gsum", "lam2",
+_EK = {"int", "var", "bin", "cmp", "E", "len", "walrus", "ifexp", "idx", "list", "tuple", "lam", "comp", "genexp", "gsum", "lam2", "mlstr",
        "dict", "str", "range", "attr", "call", "neg"}
 
 
@@ -669,7 +673,7 @@ def functions(flags=None, want_gen=None):
         def int_expr(bound, depth=0):
             opts = ["int", "int", "var", "var", "var"]
             if depth < 2:
-                opts += ["bin", "bin", "E", "E", "cmp", "len", "ifexp", "lam", "walrus", "neg", "idxxs", "G", "GN", "call", "gsum", "lam2"]
+                opts += ["bin", "bin", "E", "E", "cmp", "len", "ifexp", "lam", "walrus", "neg", "idxxs", "G", "GN", "call", "gsum", "lam2", "mlstr"]
                 if has_o:
                     opts.append("attr")
                 if closure:
@@ -711,6 +715,8 @@ def functions(flags=None, want_gen=None):
                 return ("idx", "xs", ("int", draw(st.integers(0, 2))))
             if k == "G":
                 return ("var", draw(st.sampled_from(["G1", "G2"])))
+            if k == "mlstr":
+                return ("mlstr", draw(st.sampled_from(["ab", "x"])), draw(st.sampled_from([0, 4, 8, 12])))
             if k == "lam2":
                 return ("lam2", int_expr(bound, depth + 1), draw(st.integers(0, 1)))
             if k == "gsum":
